@@ -68,31 +68,31 @@ func (d *deps) fmm(mark, buf []byte, start, max int, tail bool) string {
 var both = []string{"client", "server"}
 
 var shards = []shard{
-	{Name: "obfs4-server-hs", T: "obfs4", Roles: []string{"server"}, Stage: "hs", Gens: lib.O4HsGens, Quick: 4800, Thorough: 30000, CutAll: 2,
+	{Name: "obfs4-server-hs", T: "obfs4", Roles: []string{"server"}, Stage: "hs", Gens: lib.O4HsGens, Quick: 4800, Thorough: 60000, CutAll: 2,
 		Run: func(x *lib.Ctx, d *deps) { lib.RunO4Hs(x) }},
-	{Name: "obfs4-client-hs", T: "obfs4", Roles: []string{"client"}, Stage: "hs", Gens: lib.O4HsGens, Quick: 4800, Thorough: 30000, CutAll: 2,
+	{Name: "obfs4-client-hs", T: "obfs4", Roles: []string{"client"}, Stage: "hs", Gens: lib.O4HsGens, Quick: 4800, Thorough: 60000, CutAll: 2,
 		Run: func(x *lib.Ctx, d *deps) { lib.RunO4Hs(x) }},
-	{Name: "obfs4-server-data", T: "obfs4", Roles: []string{"server"}, Stage: "data", Gens: lib.O4DataGens, Quick: 3600, Thorough: 24000, CutAll: 2, NeedsDrv: true, Iats: true,
+	{Name: "obfs4-server-data", T: "obfs4", Roles: []string{"server"}, Stage: "data", Gens: lib.O4DataGens, Quick: 3600, Thorough: 48000, CutAll: 2, NeedsDrv: true, Iats: true,
 		Run: func(x *lib.Ctx, d *deps) { lib.RunO4Data(x, d.parsePkt) }},
-	{Name: "obfs4-client-data", T: "obfs4", Roles: []string{"client"}, Stage: "data", Gens: lib.O4DataGens, Quick: 3600, Thorough: 24000, CutAll: 2, NeedsDrv: true, Iats: true,
+	{Name: "obfs4-client-data", T: "obfs4", Roles: []string{"client"}, Stage: "data", Gens: lib.O4DataGens, Quick: 3600, Thorough: 48000, CutAll: 2, NeedsDrv: true, Iats: true,
 		Run: func(x *lib.Ctx, d *deps) { lib.RunO4Data(x, d.parsePkt) }},
-	{Name: "obfs3-hs", T: "obfs3", Roles: both, Stage: "hs", Gens: append(append([]string{}, lib.SymHsGens...), lib.Obfs3KeyGens...), Quick: 3000, Thorough: 16000, CutAll: 1,
+	{Name: "obfs3-hs", T: "obfs3", Roles: both, Stage: "hs", Gens: append(append([]string{}, lib.SymHsGens...), lib.Obfs3KeyGens...), Quick: 3000, Thorough: 32000, CutAll: 1,
 		Run: func(x *lib.Ctx, d *deps) { lib.RunSymHs(x) }},
-	{Name: "obfs3-data", T: "obfs3", Roles: both, Stage: "data", Gens: lib.SymDataGens, Quick: 2400, Thorough: 12000, CutAll: 1,
+	{Name: "obfs3-data", T: "obfs3", Roles: both, Stage: "data", Gens: lib.SymDataGens, Quick: 2400, Thorough: 24000, CutAll: 1,
 		Run: func(x *lib.Ctx, d *deps) { lib.RunSymData(x) }},
-	{Name: "obfs2-hs", T: "obfs2", Roles: both, Stage: "hs", Gens: append(append([]string{}, lib.SymHsGens...), lib.Obfs2CraftGens...), Quick: 6000, Thorough: 40000, CutAll: 1,
+	{Name: "obfs2-hs", T: "obfs2", Roles: both, Stage: "hs", Gens: append(append([]string{}, lib.SymHsGens...), lib.Obfs2CraftGens...), Quick: 6000, Thorough: 80000, CutAll: 1,
 		Run: func(x *lib.Ctx, d *deps) { lib.RunSymHs(x) }},
-	{Name: "obfs2-data", T: "obfs2", Roles: both, Stage: "data", Gens: lib.SymDataGens, Quick: 4000, Thorough: 20000, CutAll: 1,
+	{Name: "obfs2-data", T: "obfs2", Roles: both, Stage: "data", Gens: lib.SymDataGens, Quick: 4000, Thorough: 40000, CutAll: 1,
 		Run: func(x *lib.Ctx, d *deps) { lib.RunSymData(x) }},
-	{Name: "scramblesuit-hs", T: "scramblesuit", Roles: []string{"client"}, Stage: "hs", Gens: lib.SSHsGens, Quick: 3000, Thorough: 16000, CutAll: 2,
+	{Name: "scramblesuit-hs", T: "scramblesuit", Roles: []string{"client"}, Stage: "hs", Gens: lib.SSHsGens, Quick: 3000, Thorough: 32000, CutAll: 2,
 		Run: func(x *lib.Ctx, d *deps) { lib.RunSSHs(x) }},
-	{Name: "scramblesuit-data", T: "scramblesuit", Roles: []string{"client"}, Stage: "data", Gens: lib.SSDataGens, Quick: 3000, Thorough: 16000, CutAll: 2,
+	{Name: "scramblesuit-data", T: "scramblesuit", Roles: []string{"client"}, Stage: "data", Gens: lib.SSDataGens, Quick: 3000, Thorough: 32000, CutAll: 2,
 		Run: func(x *lib.Ctx, d *deps) { lib.RunSSData(x) }},
-	{Name: "socks5", T: "socks5", Roles: []string{"server"}, Stage: "hs", Gens: lib.SocksGens, Quick: 12000, Thorough: 80000, CutAll: 20,
+	{Name: "socks5", T: "socks5", Roles: []string{"server"}, Stage: "hs", Gens: lib.SocksGens, Quick: 12000, Thorough: 160000, CutAll: 20,
 		Run: func(x *lib.Ctx, d *deps) { lib.RunSocks(x) }},
-	{Name: "meek", T: "meek_lite", Roles: []string{"client"}, Stage: "data", Gens: lib.MeekGens, Quick: 90, Thorough: 400, NoCuts: true,
+	{Name: "meek", T: "meek_lite", Roles: []string{"client"}, Stage: "data", Gens: lib.MeekGens, Quick: 90, Thorough: 600, NoCuts: true,
 		Run: func(x *lib.Ctx, d *deps) { lib.RunMeek(x) }},
-	{Name: "findmarkmac", T: "obfs4", Roles: []string{"both"}, Stage: "hs", Gens: []string{"findMarkMac"}, Quick: 4000, Thorough: 40000, NeedsDrv: true, NoCuts: true,
+	{Name: "findmarkmac", T: "obfs4", Roles: []string{"both"}, Stage: "hs", Gens: []string{"findMarkMac"}, Quick: 4000, Thorough: 80000, NeedsDrv: true, NoCuts: true,
 		Run: func(x *lib.Ctx, d *deps) { lib.RunFindMarkMac(x, d.fmm) }},
 	{Name: "mem", Gens: []string{"mem-10MB"}, NoCuts: true, Run: func(x *lib.Ctx, d *deps) { lib.RunMem(x) }},
 }
@@ -197,10 +197,14 @@ func runShard(r *vlib.Run, s *shard) {
 	for _, c := range loadCorpus() {
 		if cs := shardFor(c); cs != nil && cs.Name == s.Name {
 			cc := c
-			if x := runCase(r, s, d, &cc); x.Violated() {
+			x := runCase(r, s, d, &cc)
+			if x.Violated() {
 				r.Count("corpus", "still-failing:"+c.Key())
 			} else {
 				r.Count("corpus", "passes-now")
+			}
+			if stuck(x) {
+				return // a spinning goroutine is alive in this process: nothing measured later would be sound
 			}
 		}
 	}
@@ -234,12 +238,8 @@ func runShard(r *vlib.Run, s *shard) {
 			runCase(r, s, d, &c)
 		}
 	}
-	if s.Iats && !aborted {
-		for i := 0; i < r.Scale(1, 2) && !aborted; i++ {
-			c := lib.Case{T: s.T, Role: s.Roles[0], Stage: s.Stage, Gen: "iat2-single-value-seed", Seed: rng.U64() >> 1, Iat: 2}
-			aborted = stuck(runCase(r, s, d, &c))
-		}
-	}
+	// (the paranoid-mode livelock on a single-valued length table is a permanent recorded finding;
+	// its two deterministic cases live in corpus/C10 and are replayed first on every run)
 	// ScrambleSuit: the split inside the trailing MAC/mark at every offset, several padding lengths
 	if s.Name == "scramblesuit-hs" && !aborted {
 		for pad := 0; pad < r.Scale(4, 24); pad++ {
